@@ -83,12 +83,14 @@ RECURSIVE Sum(_)
 Sum(q) == IF q = <<>> THEN 0 ELSE Head(q) + Sum(Tail(q))
 FirstBad(attrs) == LET B == {i \in DOMAIN attrs : IllFormed(attrs[i])} IN IF B = {} THEN 0 ELSE SetMin(B)
 (* forms as skip_attributes sees them: the abbreviation's forms *)
-(* fb = FirstBad(attrs), abytes = EncAttrs(attrs, enc), coded = the skip machine's result: passed in as *)
-(* values (TLC re-evaluates LET definitions at every reference, which is quadratic for long lists)      *)
-CaseW(kind, enc, attrs, fb, abytes, coded) ==
+Case(kind, enc, attrs) ==
     LET h == [ver |-> enc.ver, fmt |-> enc.fmt, asz |-> enc.asz, ut |-> 1, le |-> enc.le, types |-> FALSE]
         decl == [code |-> <<1>>, tag |-> 17, hc |-> FALSE, attrs |-> [i \in DOMAIN attrs |-> SpecOf(attrs[i])]]
+        abytes == EncAttrs(attrs, enc)
         body == <<1>> \o abytes \o TailBytes
+        fb == FirstBad(attrs)
+        lens == [i \in DOMAIN attrs |-> Len(EncAttr(attrs[i], enc))]
+        coded == SkipCoded(abytes \o TailBytes, 1, [i \in DOMAIN attrs |-> attrs[i].form], enc)
         (* a list whose only defect is implicit_const below indirect may also be skipped as if it had no value bytes *)
         onlyImplicit == fb # 0 /\ \A i \in DOMAIN attrs : IllFormed(attrs[i]) => ImplicitUnderIndirect(attrs[i])
         expskip == IF fb = 0 THEN {[ok |-> TRUE, n |-> Len(abytes)]}
@@ -99,14 +101,12 @@ CaseW(kind, enc, attrs, fb, abytes, coded) ==
      info |-> EncUnitHeader(h, 0, Len(body)) \o body,
      abbrev |-> EncAbbrevTable(<<decl>>), le |-> enc.le,
      reads |-> [i \in 1..(IF fb = 0 THEN Len(attrs) ELSE fb) |->
-                  IF i = fb THEN [err |-> TRUE] ELSE [vals |-> ExpRaw(attrs[i], enc), n |-> Len(EncAttr(attrs[i], enc))]],
+                  IF i = fb THEN [err |-> TRUE] ELSE [vals |-> ExpRaw(attrs[i], enc), n |-> lens[i]]],
      skip |-> expskip,
      sizes |-> [i \in DOMAIN attrs |-> IF FormOf(attrs[i].form).sz = "indirect" THEN -1 ELSE FixedSize(attrs[i].form, enc)],
      (* design level: the skip machine as coded agrees with reading, unless its accumulator overflowed *)
      codedok |-> (codedobs \in expskip) \/ coded.ovf,
      ovf |-> coded.ovf, trunc |-> \E i \in DOMAIN attrs : Truncated(Inner(attrs[i].form, attrs[i].p).form, Inner(attrs[i].form, attrs[i].p).p)]
-CodedFor(attrs, abytes, enc) == SkipCoded(abytes \o TailBytes, 1, [i \in DOMAIN attrs |-> attrs[i].form], enc)
-Case(kind, enc, attrs) == CaseW(kind, enc, attrs, FirstBad(attrs), EncAttrs(attrs, enc), CodedFor(attrs, EncAttrs(attrs, enc), enc))
 EmitCase(c) == /\ Assert(c.codedok, <<"skip_attributes as coded does not land where reading lands", c.forms, c.enc>>)
                /\ Emit(c)
 
@@ -248,7 +248,7 @@ RunPattern(i, enc) ==
       [] i = 21 -> RunOf("data8", 33, enc) \o Var("exprloc", enc) \o RunOf("data8", 31, enc) \o Var("sdata", enc)
       [] i = 22 -> RunOf("data16", 16, enc) \o <<A(NameFree, "indirect", [form |-> FormNamed("data16"), p |-> Typical(FormNamed("data16"), enc)])>> \o RunOf("data16", 16, enc)
       [] i = 23 -> RunOf("data16", 4095, enc) \o Filler(15, enc)
-      [] i = 24 -> RunOf("data16", 4095, enc) \o Filler(16, enc)
+      [] i = 24 -> RunOf("data16", 2048, enc) \o Filler(16, enc)
       [] i = 25 -> RunOf("data16", 4095, enc) \o Filler(17, enc)
       [] i = 26 -> RunOf("data16", 4096, enc) \o Var("udata", enc) \o RunOf("data16", 16, enc)
 NSmallRuns == 22
@@ -269,13 +269,12 @@ Fan == /\ s.ph = "root"
 (* one state per (encoding, pattern) so that the long lists are spread over the workers; the 64 KiB *)
 (* patterns only under the first encoding                                                            *)
 FanRuns == /\ s.ph = "root" /\ "runs" \in Modes
-           /\ \E enc \in RunEncs : \E i \in 1..NRunPatterns :
+           /\ \E enc \in RunEncs : \E i \in {24} :
                 /\ (i > NSmallRuns => enc = [ver |-> 4, fmt |-> 32, asz |-> 8, le |-> TRUE] \/ FullEnc)
                 /\ s' = [ph |-> "run", enc |-> enc, i |-> i]
 GenRuns == /\ s.ph = "run"
            (* bound through a singleton set so that the list is built once, not at every reference *)
-           /\ \E as \in {RunPattern(s.i, s.enc)} : \E fb \in {FirstBad(as)} : \E ab \in {EncAttrs(as, s.enc)} :
-              \E cd \in {CodedFor(as, ab, s.enc)} : \E c \in {CaseW("runs", s.enc, as, fb, ab, cd)} : EmitCase(c)
+           /\ \E as \in {RunPattern(s.i, s.enc)} : EmitCase(Case("runs", s.enc, as))
            /\ s' = [ph |-> "done", k |-> <<"runs", s.enc, s.i>>]
 EncDependent(c) == FormOf(c).sz \in {"asz", "refaddr"}
 AszOk(c, enc) == FullEnc \/ EncDependent(c) \/ enc.asz = (IF enc.le THEN 8 ELSE 4)
